@@ -1,4 +1,5 @@
 import GB.C06.Proofs
+import GB.C06.Compose
 /-
   C06 — property theorems.  `PatState` / `SvcState` are the executable models of
   routing/pattern_router.go and routing/service_router.go (GB/C06/Model.lean; the gbdriver runs the
@@ -265,3 +266,164 @@ example (valid : Bytes → Bool) (ev : Route → Outcome) (m : HMethod) (d : Des
     simp only [latestOf, List.foldl, watched_update, watched_watch] at hx
     simpa [Latest.watched, Latest.init] using hx
   rw [key n hw, key n' hw']
+
+
+/-! ## Composition with C03: the real matcher instead of the opaque parameters
+
+  `validC parse` = `routing.buildPattern` succeeds (gwbased.Parse, `Compile`, `runtime.NewPattern` as C03 models
+  them), `evalC parse` = the closure of `RouteHTTP` (`C03.stepRoute` running `C03.matchAndEscape` on the compiled
+  pattern), `routeHTTPm` = C06's table lookup with these, returning the captures.  `parse` is gwbased.Parse
+  (C20); `ParserOk` states what is used of it.  `tableOfGroups` flattens a per-method list into a C03 `Table`
+  whose ids are (target name, description version, index path of service/method/binding). -/
+
+/-- **The committed snapshot is the table of the latest descriptions**: for every HTTP method the committed list
+    consists, in its own target order `orderOf`, of exactly one element per live target whose LATEST
+    description has an accepted binding for that method, holding that description's routes in description order. -/
+theorem C06_snapshot_is_latest (valid : Bytes → Bool) (h : List Op) (m : HMethod) :
+    groupsOf (PatState.init.run valid h).static m =
+      (orderOf (PatState.init.run valid h) m).filterMap (specGroup valid (latestOf h) m) ∧
+    (orderOf (PatState.init.run valid h) m).Nodup ∧
+    ∀ n, n ∈ orderOf (PatState.init.run valid h) m ↔
+      ∃ d rs, (latestOf h).desc n = some d ∧ built valid d m = some rs := by
+  have inv := C06_pattern_invariant valid h
+  refine ⟨snapshot_eq_spec inv m, ?_, ?_⟩
+  · unfold orderOf; rw [inv.committed]; exact UInv_run h (PInv_init valid) UInv_init m
+  · intro n
+    rw [mem_order_iff_linked inv, inv.links n m]
+    constructor
+    · intro hs
+      cases hg : specGroup valid (latestOf h) m n with
+      | none => simp [hg] at hs
+      | some g => obtain ⟨d, hd, rs, hb, _⟩ := specGroup_some hg; exact ⟨d, rs, hd, hb⟩
+    · rintro ⟨d, rs, hd, hb⟩
+      simp [specGroup, hd, hb]
+
+/-- **Table order**: where a target stands in the list of an HTTP method.  A delivered description keeps the
+    target's place if it had and still has an accepted binding for the method, removes it if it has none any
+    more, and appends it at the END if it newly has one; Close removes it; nothing else moves anything.
+    (So targets are ordered by when they last *acquired* the method; bindings inside a target are in
+    description order by `built`.) -/
+theorem C06_table_order (valid : Bytes → Bool) (h : List Op) (m : HMethod) :
+    let st := PatState.init.run valid h
+    (∀ d, (latestOf h).watched d.name = true →
+      orderOf (PatState.init.run valid (h ++ [.update d.name d])) m =
+        if d.name ∈ orderOf st m then
+          (if (built valid d m).isSome then orderOf st m else (orderOf st m).filter (fun x => decide (x ≠ d.name)))
+        else (if (built valid d m).isSome then orderOf st m ++ [d.name] else orderOf st m)) ∧
+    (∀ n, (latestOf h).watched n = true →
+      orderOf (PatState.init.run valid (h ++ [.close n])) m = (orderOf st m).filter (fun x => decide (x ≠ n))) ∧
+    (∀ n, orderOf (PatState.init.run valid (h ++ [.watch n])) m = orderOf st m) ∧
+    (∀ n d, ¬ ((latestOf h).watched n = true ∧ d.name = n) →
+      orderOf (PatState.init.run valid (h ++ [.update n d])) m = orderOf st m) ∧
+    (∀ n, (latestOf h).watched n = false →
+      orderOf (PatState.init.run valid (h ++ [.close n])) m = orderOf st m) := by
+  have inv := C06_pattern_invariant valid h
+  refine ⟨?_, ?_, ?_, ?_, ?_⟩
+  · intro d hw
+    rw [run_snoc_pat]
+    exact order_update inv d (by rw [inv.watch]; exact hw) m
+  · intro n hw
+    rw [run_snoc_pat]
+    exact order_close inv n (by rw [inv.watch]; exact hw) m
+  · intro n
+    rw [run_snoc_pat]
+    exact order_noop _ (.watch n) trivial m
+  · intro n d hn
+    rw [run_snoc_pat]
+    exact order_noop _ (.update n d) (by show ¬ _; rw [inv.watch]; exact hn) m
+  · intro n hw
+    rw [run_snoc_pat]
+    exact order_noop _ (.close n) (by show _ = false; rw [inv.watch]; exact hw) m
+
+/-- **End to end, with the real matcher**: after ANY history of watch/update/close, `RouteHTTP` on the committed
+    snapshot returns route `r` (service/method/binding index path) of target `n`, description version `v`, with
+    captures `c` **iff** the pool has a connection for `n` and `(n, v, r)` is the FIRST entry — targets in table
+    order (`C06_table_order`), bindings in description order — of the table built from the LATEST descriptions
+    of the live targets whose template matches the raw path segments per C03's declarative `PathMatches`,
+    capturing `c` (decoded once).  Combines `C06_pattern_invariant` with C03's `iterTbl_found_iff`
+    (`C03_route_iff`) and compiler correctness (`matchAndEscape_compile`, `C03_compiled_matcher`). -/
+theorem C06_pattern_with_matcher (parse : Bytes → Option C03.Tmpl) (hp : ParserOk parse) (pool : Name → Bool)
+    (h : List Op) (m : HMethod) (p : Bytes) (n : Name) (v : Ver) (r : Route) (c : C03.Captures) :
+    routeHTTPm parse pool (PatState.init.run (validC parse) h).static m (47 :: p) = .found n v r c ↔
+      pool n = true ∧
+      C03.FirstMatch
+        (tableOfGroups parse m
+          ((orderOf (PatState.init.run (validC parse) h) m).filterMap (specGroup (validC parse) (latestOf h) m)))
+        m (C03.splitSlash p) (n, v, r) c := by
+  have inv := C06_pattern_invariant (validC parse) h
+  rw [← snapshot_eq_spec inv m]
+  exact routeHTTPm_found_iff hp pool _ m p (PInv_good hp inv m) n v r c
+
+/-- what the entries of that table are: one per accepted binding of HTTP method `m` of the latest description of
+    a listed target, carrying its parsed template -/
+theorem C06_matcher_table_entries (parse : Bytes → Option C03.Tmpl) (l : Latest) (order : List Name) (m : HMethod)
+    (e : RId × Bytes × C03.Tmpl) :
+    e ∈ tableOfGroups parse m (order.filterMap (specGroup (validC parse) l m)) ↔
+      ∃ n d r t, n ∈ order ∧ l.desc n = some d ∧ r ∈ allRoutes (validC parse) d ∧ r.httpMethod = m ∧
+        parse r.pattern = some t ∧ e = ((n, d.ver, r), m, t) := by
+  simp only [tableOfGroups, List.mem_flatMap, List.mem_filterMap, entriesOf]
+  constructor
+  · rintro ⟨g, ⟨n, hn, hg⟩, r, hr, he⟩
+    obtain ⟨d, hd, rs, hb, hge⟩ := specGroup_some hg
+    subst hge
+    simp only at hr he
+    rw [built_some hb] at hr
+    obtain ⟨hr1, hr2⟩ := List.mem_filter.mp hr
+    cases ht : parse r.pattern with
+    | none => simp [ht] at he
+    | some t =>
+      simp only [ht, Option.map_some, Option.some.injEq] at he
+      exact ⟨n, d, r, t, hn, hd, hr1, by simpa using hr2, ht, he.symm⟩
+  · rintro ⟨n, d, r, t, hn, hd, hr, hm, ht, rfl⟩
+    have hmem : r ∈ (allRoutes (validC parse) d).filter (fun r => decide (r.httpMethod = m)) :=
+      List.mem_filter.mpr ⟨hr, by simpa using hm⟩
+    cases hf : (allRoutes (validC parse) d).filter (fun r => decide (r.httpMethod = m)) with
+    | nil => rw [hf] at hmem; cases hmem
+    | cons a as =>
+      have hb : built (validC parse) d m = some (a :: as) := by simp [built, hf]
+      refine ⟨⟨n, d.ver, a :: as⟩, ⟨n, hn, by simp [specGroup, hd, hb]⟩, r, by rw [← hf]; exact hmem, by simp [ht]⟩
+
+/-- the error side: Unavailable iff the first match's target has no pooled connection, InvalidArgument only for a
+    malformed percent-escape in some raw segment, NotFound iff no accepted binding of a live target's latest
+    description matches. -/
+theorem C06_pattern_with_matcher_status (parse : Bytes → Option C03.Tmpl) (hp : ParserOk parse) (pool : Name → Bool)
+    (h : List Op) (m : HMethod) (p : Bytes) (code : Nat)
+    (hs : routeHTTPm parse pool (PatState.init.run (validC parse) h).static m (47 :: p) = .status code) :
+    let tbl := tableOfGroups parse m
+      ((orderOf (PatState.init.run (validC parse) h) m).filterMap (specGroup (validC parse) (latestOf h) m))
+    (code = codeUnavailable ∧ ∃ n v r c, pool n = false ∧ C03.FirstMatch tbl m (C03.splitSlash p) (n, v, r) c) ∨
+    (code = codeInvalidArgument ∧ ∃ s ∈ C03.splitSlash p, ¬ C03.WellEscaped s) ∨
+    (code = codeNotFound ∧ ¬ ∃ i c, C03.FirstMatch tbl m (C03.splitSlash p) i c) := by
+  have inv := C06_pattern_invariant (validC parse) h
+  simp only
+  rw [← snapshot_eq_spec inv m]
+  exact routeHTTPm_status hp pool _ m p (PInv_good hp inv m) code hs
+
+/-! non-vacuity: a parser that knows the single template `/a`, one target with `GET /a` -/
+section
+def toyParse (s : Bytes) : Option C03.Tmpl := if s = [47, 97] then some ⟨[.plain (.lit [97])], []⟩ else none
+
+example : ParserOk toyParse := by
+  intro s t ht
+  simp only [toyParse] at ht
+  split at ht
+  · cases ht
+    refine ⟨?_, ?_, ?_⟩
+    · intro sg hsg
+      simp only [List.mem_singleton] at hsg
+      subst hsg
+      simp [C03.Seg.ShapeOk, C03.VSeg.sym, C03.SOp.ShapeOk]
+    · intro q hq
+      simp only [C03.atomsOf, List.flatMap_cons, List.flatMap_nil, C03.Seg.atoms, List.append_nil,
+        List.mem_singleton] at hq
+      subst hq
+      simp [C03.VSeg.litsOk, C03.wellEscaped_iff, C03.litText, C03.eof, C03.escapesOk]
+    · simp [C03.wellEscaped_iff, C03.escapesOk]
+  · cases ht
+
+def toyDesc : Desc := ⟨[116], 1, [⟨[83], [⟨[47, 83, 47, 77], [⟨[71, 69, 84], [47, 97]⟩]⟩]⟩]⟩
+
+example : routeHTTPm toyParse (fun _ => true)
+    (PatState.init.run (validC toyParse) [.watch [116], .update [116] toyDesc]).static [71, 69, 84] [47, 97] =
+      .found [116] 1 ⟨0, 0, some 0, [71, 69, 84], [47, 97]⟩ [] := by decide
+end
